@@ -9,6 +9,17 @@ VERIF = os.path.dirname(os.path.dirname(os.path.abspath(__file__)))
 
 # id -> (category, technique, level text, level note, design ref)
 CHECKS = {
+    "C10": (
+        "exploration",
+        "exhaustive itertools.product over scanner lexeme sequences (<=3 full table, 4 core table; thorough <=4 full) + "
+        "Hypothesis long Unicode texts + native libFuzzer/ASan/UBSan target including the tree's _uscan.cc, all against a tiling oracle",
+        "Every concatenation of up to 3 (thorough 4) scanner-relevant lexemes is scanned and checked against an independent "
+        "statement of tiling (ordered, non-empty, known type, gaps only U+EBAD, ends at end/first NUL); that sub-space is "
+        "exhaustive, longer inputs are sampled by Hypothesis and by coverage-guided fuzzing of the C++ scanner under sanitizers.",
+        "Treats the tracked re2c output _uscan.cc as the scanner source (re2c is not installed, _uscan.re cannot be regenerated). "
+        "The native target appends the same 32 NUL sentinels as utoken.scan.",
+        "DESIGN.md section 2 C10",
+    ),
     "C12": (
         "exploration",
         "Hypothesis-generated titles x spelling operators x 24 site configurations against algebraic laws L1-L4 "
